@@ -1223,6 +1223,7 @@ pub fn run(args: &Args) -> i32 {
         let mut unmodelled: BTreeMap<&'static str, u64> = BTreeMap::new();
         let mut errors_expected = 0u64;
         let mut traces: BTreeSet<u64> = BTreeSet::new();
+        let mut samples: Vec<String> = vec![];
         let mut fails: Vec<(Option<String>, String, String)> = vec![];
         let mut per_key: BTreeMap<String, u64> = BTreeMap::new();
         let mut capped = false;
@@ -1284,6 +1285,9 @@ pub fn run(args: &Args) -> i32 {
                             errors_expected += 1;
                         }
                         traces.insert(hash_of(&m));
+                        if samples.len() < 2 && judged % 4999 == 17 {
+                            samples.push(format!("{:?} n={} src{} {:?} => {}", c.src, c.n, c.ads.iter().map(|a| ad_src(*a)).collect::<String>(), c.con, m.join(" | ")));
+                        }
                         let src = render(&c);
                         if trace {
                             let _ = std::fs::write(format!("/dev/shm/itermc-last-{shard}"), format!("{c:?}\n{src}"));
@@ -1335,7 +1339,7 @@ pub fn run(args: &Args) -> i32 {
                 }
             }
         }
-        (cases, judged, unmodelled, errors_expected, traces, fails, capped)
+        (cases, judged, unmodelled, errors_expected, traces, fails, capped, samples)
     });
     let mut cases = 0;
     let mut judged = 0;
@@ -1343,7 +1347,11 @@ pub fn run(args: &Args) -> i32 {
     let mut errs = 0;
     let mut traces = BTreeSet::new();
     let mut capped = false;
-    for (c, j, u, e, t, f, cap) in results {
+    let mut samples: Vec<String> = vec![];
+    for (c, j, u, e, t, f, cap, sm) in results {
+        if samples.len() < 8 {
+            samples.extend(sm);
+        }
         cases += c;
         judged += j;
         errs += e;
@@ -1357,6 +1365,7 @@ pub fn run(args: &Args) -> i32 {
         }
     }
     report.cov("evaluations", judged);
+    report.cov("samples", json!(samples));
     report.cov("cases_enumerated", cases);
     report.cov("cases_left_undefined_by_the_model", json!(unmodelled));
     report.cov("cases_where_an_error_is_the_defined_result", errs);
